@@ -72,7 +72,7 @@ def run(ctx):
         if c.poi_index is not None or c.poi_name is not None:
             ctx.fail('C12/poi-index', 'a model built without POI reports one', inp, [c.poi_name, c.poi_index], None)
     for i in range(nspec):
-        spec0, info = gen_spec.gen_spec(rng)
+        spec0, info = gen_spec.gen_spec(rng, cross_channel_stat=True)
         err, m0 = enga.impl_model(pyhf, spec0, enga.impl_kwargs())
         if m0 is None:
             ctx.fail('C12/wf-spec-rejected', 'a well-formed generated spec was rejected', {'spec': spec0}, err); continue
